@@ -11,6 +11,13 @@ hypotheses are `k.Ok maxSize` (the metadata type is a Rust type and `P::layout` 
 `Layout`s), `IsTypeLayout maxSize hdr` and `gcAlloc … = some p` (the allocation did not panic);
 `sizedKind_ok`, `customKind_ok`, `sliceWithHeaderKind_ok` show the built-in kinds satisfy
 `PtrKind.Ok`.  Tie: `lib/eng_layout.py` (harness_layout vs. `layoutmodel`).
+
+`stable` and `dealloc_same_layout` are frame lemmas (they assume where writes fall).  The
+substantive claim — the collector's bookkeeping writes (`CollectorWrite`: the two stores of
+`GcPtr::alloc` and the four `GcHeader` setters) all land in the header extent / metadata slot,
+hence never in the value — is `collector_writes_in_header`, `stable_under_collector_writes` and
+`dealloc_same_layout_collector_history` in the section "The collector's bookkeeping writes never
+touch the value" below, whose docstring says what ties `CollectorWrite` to the code.
 -/
 namespace GcArena.C17
 
@@ -351,6 +358,223 @@ theorem tag_bits (bits vtable color : Nat) (needsTrace live : Bool) (hb : 4 ≤ 
       color false hb l5 hc
   exact ⟨by rw [c4, l4, n4, hu], c1, by rw [c2, l3, n1], by rw [c3, l1], c5⟩
 
+/-! ## The collector's bookkeeping writes never touch the value
+
+`stable` and `dealloc_same_layout` above are frame lemmas: they *assume* (`hws`) that writes fall
+inside the header or the value extent.  The theorems below discharge that assumption for the
+writes the crate actually performs on an allocated block — `CollectorWrite` in
+`GcArena.Model.Layout`: the two stores of `GcPtr::alloc` (`meta_ptr.write(ptr_meta)`,
+`header_ptr.write(GcHeader::new(..))`) and the four `&self` mutators of `GcHeader` (`set_color`,
+`set_needs_trace`, `set_live` on the tagged vtable word, `set_next` on the `next` word), each
+modelled as a store of bytes at `value_ptr − size_of::<GcHeader>() + field offset`.  The field
+offsets are arbitrary (`HeaderFields`, `repr(Rust)` field order is not fixed) subject only to
+`HeaderFields.Fits` (a field lies inside its struct).
+
+What ties `CollectorWrite` to the code (modelled, not verified — DESIGN §9):
+* grep-level fact about /repo/src (checkable with `grep -n '\.write(\|\.set(\|\.update(' src/gc_ptr.rs`
+  and `grep -rn GcHeader src | grep -v gc_ptr.rs`): `GcHeader` is named in no file other than
+  `gc_ptr.rs`; its fields `next` and `tagged_vtable` are private; the only `.set(` / `.update(` on
+  them are the bodies of `set_next`, `set_color`, `set_needs_trace`, `set_live` (4 sites), and the
+  only raw `.write(` in `gc_ptr.rs` are the two lines of `GcPtr::alloc`.  Every other module
+  (`context.rs`, `gc.rs`) reaches a header only as `&GcHeader` through `GcPtr::header()`, i.e.
+  only through those four setters;
+* the correspondence harness (`harness_layout`, `lib/eng_layout.py`): the allocator pre-fills
+  every block, so the bytes the crate stored before the value is initialised are observed
+  (`written …` of the canonical answer: exactly metadata slot ∪ header); a byte pattern over the
+  whole value extent is re-read after each of several `finish_cycle`s and after barriers;
+  guard bytes around every block are checked on release and at the end of each case; the raw
+  tagged word is read from the header in every reachable state (`tag …` cases).
+-/
+
+/-- Every store of every `CollectorWrite` on a block laid out by `gcAlloc` lies inside the block
+    and strictly in front of the value extent: the four header mutators and `GcHeader::new`
+    store inside the header extent `[headerPtr, valuePtr)` (one word at the field's offset), the
+    allocation-time metadata store inside the metadata slot, which ends before the header
+    starts.  The header extent ends where the value extent begins, so it is disjoint from it. -/
+theorem collector_writes_in_header (maxSize : Nat) (hdr : Layout) (k : PtrKind) (ptrMeta : Nat)
+    (p : Plan) (block : Nat) (hk : k.Ok maxSize) (hh : IsTypeLayout maxSize hdr)
+    (h : gcAlloc maxSize hdr k ptrMeta = some p) (f : HeaderFields) (hf : f.Fits hdr) (bits : Nat)
+    (m : Nat → Nat) (w : CollectorWrite) :
+    ∀ s ∈ w.stores f bits hdr p.mhl k.pmeta (valuePtr block p) m,
+      ((∀ enc, w ≠ .writeMeta enc) →
+        headerPtr hdr (valuePtr block p) ≤ s.lo ∧ s.lo + s.bytes.length ≤ valuePtr block p) ∧
+      ((∃ enc, w = .writeMeta enc) →
+        metaPtr p.mhl (valuePtr block p) ≤ s.lo ∧
+        s.lo + s.bytes.length ≤ metaPtr p.mhl (valuePtr block p) + k.pmeta.size ∧
+        s.lo + s.bytes.length ≤ headerPtr hdr (valuePtr block p)) ∧
+      block ≤ s.lo ∧ s.lo + s.bytes.length ≤ valuePtr block p ∧
+      (∀ a, valuePtr block p ≤ a → a < valuePtr block p + p.value.size →
+        ¬ (s.lo ≤ a ∧ a < s.lo + s.bytes.length)) := by
+  obtain ⟨d1, d2, d3, _⟩ := disjoint maxSize hdr k ptrMeta p block hk hh h
+  have hmh : metaPtr p.mhl (valuePtr block p) ≤ headerPtr hdr (valuePtr block p) := by omega
+  intro s hs
+  cases w with
+  | writeMeta enc =>
+    simp only [CollectorWrite.stores, List.mem_singleton] at hs
+    subst hs
+    have hl : (enc.take k.pmeta.size).length ≤ k.pmeta.size := by
+      rw [List.length_take]; exact Nat.min_le_left _ _
+    refine ⟨fun hne => absurd rfl (hne enc), fun _ => ⟨Nat.le_refl _, by simp only; omega, by simp only; omega⟩,
+      by simp only; omega, by simp only; omega, fun a h1 h2 => by simp only; omega⟩
+  | headerNew vt =>
+    obtain ⟨f1, f2⟩ := hf
+    simp only [CollectorWrite.stores, List.mem_cons, List.mem_nil_iff, or_false] at hs
+    rcases hs with hs | hs <;> subst hs <;> simp only [wordBytes_length] <;>
+    · refine ⟨fun _ => by omega, (fun ⟨_, he⟩ => by cases he), by omega, by omega,
+        fun a h1 h2 => by omega⟩
+  | header hw =>
+    simp only [CollectorWrite.stores, List.mem_singleton] at hs
+    subst hs
+    obtain ⟨b1, b2, _, _⟩ := HeaderWrite.store_in_header hf bits (headerPtr hdr (valuePtr block p)) m hw
+    refine ⟨fun _ => by omega, (fun ⟨_, he⟩ => by cases he), by omega, by omega,
+      fun a h1 h2 => by omega⟩
+
+/-- Any sequence of collector writes — any number of collections, barriers, links, with whatever
+    colours, flags and `next` pointers — leaves every byte of the value extent unchanged; indeed
+    it changes no address at or above the value pointer and none below the block.  There is no
+    hypothesis about where the writes fall: that is `collector_writes_in_header`.  The value's
+    address is `valuePtr block p`, a function of the block and the plan alone; no collector write
+    takes part in computing it, so it is fixed. -/
+theorem stable_under_collector_writes (maxSize : Nat) (hdr : Layout) (k : PtrKind) (ptrMeta : Nat)
+    (p : Plan) (block : Nat) (hk : k.Ok maxSize) (hh : IsTypeLayout maxSize hdr)
+    (h : gcAlloc maxSize hdr k ptrMeta = some p) (f : HeaderFields) (hf : f.Fits hdr) (bits : Nat)
+    (m : Nat → Nat) (ws : List CollectorWrite) :
+    (∀ a, valuePtr block p ≤ a →
+      runCollector f bits hdr p.mhl k.pmeta (valuePtr block p) m ws a = m a) ∧
+    (∀ a, a < block →
+      runCollector f bits hdr p.mhl k.pmeta (valuePtr block p) m ws a = m a) ∧
+    readCells (runCollector f bits hdr p.mhl k.pmeta (valuePtr block p) m ws)
+        (valuePtr block p) p.value.size = readCells m (valuePtr block p) p.value.size := by
+  have key : ∀ a, (valuePtr block p ≤ a ∨ a < block) →
+      runCollector f bits hdr p.mhl k.pmeta (valuePtr block p) m ws a = m a := by
+    intro a ha
+    induction ws generalizing m with
+    | nil => rfl
+    | cons w ws ih =>
+      unfold runCollector
+      rw [ih]
+      unfold CollectorWrite.apply
+      apply foldl_run_outside
+      intro s hs
+      obtain ⟨_, _, c1, c2, _⟩ :=
+        collector_writes_in_header maxSize hdr k ptrMeta p block hk hh h f hf bits m w s hs
+      omega
+  refine ⟨fun a ha => key a (Or.inl ha), fun a ha => key a (Or.inr ha), ?_⟩
+  apply readCells_congr
+  intro a h1 _
+  exact key a (Or.inl h1)
+
+/-- `dealloc_same_layout` without any hypothesis about where writes fall, for every history of an
+    allocated block: `GcPtr::alloc` stores the metadata and the header, then the collector's
+    header mutators and the mutator's stores into the value interleave in any order and number;
+    the metadata read back by the `dealloc` vtable entry is still the metadata stored at
+    allocation, the recomputed layout is the requested one and the pointer handed to
+    `alloc::dealloc` is the block start. -/
+theorem dealloc_same_layout_collector_history (maxSize : Nat) (hdr : Layout) (k : PtrKind)
+    (ptrMeta : Nat) (p : Plan) (block : Nat) (hk : k.Ok maxSize) (hh : IsTypeLayout maxSize hdr)
+    (h : gcAlloc maxSize hdr k ptrMeta = some p) (f : HeaderFields) (hf : f.Fits hdr) (bits : Nat)
+    (m0 : Nat → Nat) (enc : Nat → List Nat) (dec : List Nat → Nat)
+    (henc : (enc ptrMeta).length = k.pmeta.size) (hdec : dec (enc ptrMeta) = ptrMeta)
+    (vtable : Nat) (hist : List BlockWrite) :
+    readPtrMeta
+        (runHistory f bits hdr p.value (valuePtr block p)
+          (afterAlloc f bits hdr p.mhl k.pmeta (valuePtr block p) m0 (enc ptrMeta) vtable) hist)
+        dec p.mhl k.pmeta (valuePtr block p) = ptrMeta ∧
+      gcDealloc maxSize hdr k (valuePtr block p)
+        (readPtrMeta
+          (runHistory f bits hdr p.value (valuePtr block p)
+            (afterAlloc f bits hdr p.mhl k.pmeta (valuePtr block p) m0 (enc ptrMeta) vtable) hist)
+          dec p.mhl k.pmeta (valuePtr block p)) = some (block, p.alloc) := by
+  obtain ⟨d1, d2, d3, _⟩ := disjoint maxSize hdr k ptrMeta p block hk hh h
+  -- a post-allocation write never touches the metadata slot
+  have hist_frame : ∀ (m : Nat → Nat) (a : Nat), a < headerPtr hdr (valuePtr block p) →
+      runHistory f bits hdr p.value (valuePtr block p) m hist a = m a := by
+    intro m a ha
+    induction hist generalizing m with
+    | nil => rfl
+    | cons w ws ih =>
+      unfold runHistory
+      rw [ih]
+      cases w with
+      | collector hw =>
+        obtain ⟨b1, _, _, _⟩ :=
+          HeaderWrite.store_in_header hf bits (headerPtr hdr (valuePtr block p)) m hw
+        exact Store.run_outside m _ a (Or.inl (by omega))
+      | mutator off byte =>
+        simp only [BlockWrite.apply]
+        split
+        · exact writeCells_outside m _ _ a (Or.inl (by omega))
+        · rfl
+  -- after allocation the metadata slot holds the encoded metadata
+  have halloc : ∀ a, metaPtr p.mhl (valuePtr block p) ≤ a →
+      a < metaPtr p.mhl (valuePtr block p) + k.pmeta.size →
+      afterAlloc f bits hdr p.mhl k.pmeta (valuePtr block p) m0 (enc ptrMeta) vtable a =
+        writeCells m0 (metaPtr p.mhl (valuePtr block p)) (enc ptrMeta) a := by
+    intro a h1 h2
+    obtain ⟨f1, f2⟩ := hf
+    have htake : (enc ptrMeta).take k.pmeta.size = enc ptrMeta := by
+      rw [← henc]; exact List.take_length
+    simp only [afterAlloc, runCollector, CollectorWrite.apply, CollectorWrite.stores,
+      List.foldl_cons, List.foldl_nil, Store.run, htake]
+    rw [writeCells_outside _ _ _ a (Or.inl (by omega)),
+      writeCells_outside _ _ _ a (Or.inl (by omega))]
+  have hread : readPtrMeta
+      (runHistory f bits hdr p.value (valuePtr block p)
+        (afterAlloc f bits hdr p.mhl k.pmeta (valuePtr block p) m0 (enc ptrMeta) vtable) hist)
+      dec p.mhl k.pmeta (valuePtr block p) = ptrMeta := by
+    unfold readPtrMeta
+    rw [readCells_congr _ (writeCells m0 (metaPtr p.mhl (valuePtr block p)) (enc ptrMeta)),
+      ← henc, readCells_writeCells, hdec]
+    intro a h1 h2
+    rw [hist_frame _ a (by omega)]
+    exact halloc a h1 h2
+  refine ⟨hread, ?_⟩
+  rw [hread]
+  have := (dealloc_same_layout maxSize hdr k ptrMeta p block hk hh h m0 enc dec henc hdec []
+    (fun w hw => by cases hw)).2
+  rw [(dealloc_same_layout maxSize hdr k ptrMeta p block hk hh h m0 enc dec henc hdec []
+    (fun w hw => by cases hw)).1] at this
+  exact this
+
+/-- The stores are what the setters compute: after a header mutator, the tagged word read back
+    from memory is `hdrSetColor` / `hdrSetNeedsTrace` / `hdrSetLive` of the word that was there
+    (so `tag_fields_independent` applies to the word in memory), and `set_next` stores its
+    argument; `bits = 8 · word`. -/
+theorem header_write_reads_back (f : HeaderFields) (hp : Nat) (m : Nat → Nat) (w : HeaderWrite)
+    (hb : 4 ≤ 8 * f.word) (hold : readWord m (hp + f.vtableOff) f.word < 2 ^ (8 * f.word)) :
+    match w with
+    | .setColor c => c < 4 →
+        readWord ((w.store f (8 * f.word) hp m).run m) (hp + f.vtableOff) f.word =
+          hdrSetColor (8 * f.word) (readWord m (hp + f.vtableOff) f.word) c
+    | .setNeedsTrace b =>
+        readWord ((w.store f (8 * f.word) hp m).run m) (hp + f.vtableOff) f.word =
+          hdrSetNeedsTrace (8 * f.word) (readWord m (hp + f.vtableOff) f.word) b
+    | .setLive b =>
+        readWord ((w.store f (8 * f.word) hp m).run m) (hp + f.vtableOff) f.word =
+          hdrSetLive (8 * f.word) (readWord m (hp + f.vtableOff) f.word) b
+    | .setNext n => n < 2 ^ (8 * f.word) →
+        readWord ((w.store f (8 * f.word) hp m).run m) (hp + f.nextOff) f.word = n := by
+  have h256 : (256 : Nat) ^ f.word = 2 ^ (8 * f.word) := by
+    rw [show (256 : Nat) = 2 ^ 8 from rfl, ← Nat.pow_mul]
+  have rb : ∀ a x, x < 2 ^ (8 * f.word) →
+      readWord (writeCells m a (wordBytes f.word x)) a f.word = x := by
+    intro a x hx
+    unfold readWord
+    have := readCells_writeCells m a (wordBytes f.word x)
+    rw [wordBytes_length] at this
+    rw [this, bytesWord_wordBytes _ _ (by rw [h256]; exact hx)]
+  cases w with
+  | setColor c =>
+    intro hc
+    exact rb _ _ (tag_fields_independent _ _ c false hb hold hc).1.2.2.2.2
+  | setNeedsTrace b =>
+    exact rb _ _ (tag_fields_independent _ _ 0 b hb hold (by decide)).2.1.2.2.2.2
+  | setLive b =>
+    exact rb _ _ (tag_fields_independent _ _ 0 b hb hold (by decide)).2.2.2.2.2.2
+  | setNext n =>
+    intro hn
+    exact rb _ _ hn
+
 /-! ## Non-vacuity: the hypotheses are satisfiable and the model computes the expected numbers -/
 
 /-- 64-bit target: `isize::MAX`, `GcHeader` = two words. -/
@@ -364,6 +588,14 @@ example : (sizedKind ⟨24, 8⟩).Ok (2 ^ 63 - 1) ∧
   ⟨sizedKind_ok (by decide), customKind_ok (by decide) (by decide),
     sliceWithHeaderKind_ok (by decide) (by decide) (by decide),
     sliceWithHeaderKind_ok (by decide) (by decide) (by decide)⟩
+
+/-- The declaration-order field layout of a two-word `GcHeader` fits the header layout. -/
+example : (declOrderFields 8).Fits ⟨16, 8⟩ := by decide
+
+/-- A black, traced, live header word written through `set_color` reads back from memory. -/
+example : readWord (((HeaderWrite.setColor 3).store (declOrderFields 8) 64 1000
+      (writeCells (fun _ => 0) 1008 (wordBytes 8 0x100c))).run
+      (writeCells (fun _ => 0) 1008 (wordBytes 8 0x100c))) 1008 8 = 0x100f := by decide
 
 /-- A `u8` value: 16-byte header, value at offset 16, block of 17 bytes aligned 8. -/
 example : gcAlloc (2 ^ 63 - 1) ⟨16, 8⟩ (sizedKind ⟨1, 1⟩) 0 =
